@@ -137,6 +137,9 @@ type VerifEntry struct {
 	Base    *VerifRS
 	Queries map[string]*VerifRS
 	Links   map[string]string
+	// DeadLinks lists the raw queries linked to a resource subscription that
+	// is not (or no longer) the registered one of its normalised query.
+	DeadLinks []string
 }
 
 func verifRS(rs *ResourceSubscription) *VerifRS {
@@ -200,7 +203,11 @@ func (c *Cache) VerifSnapshot() []VerifEntry {
 			ve.Links = make(map[string]string, len(e.links))
 			for q, rs := range e.links {
 				ve.Links[q] = rs.query
+				if e.queries[rs.query] != rs {
+					ve.DeadLinks = append(ve.DeadLinks, q)
+				}
 			}
+			sort.Strings(ve.DeadLinks)
 		}
 		e.mu.Unlock()
 		out = append(out, ve)
